@@ -6,6 +6,7 @@ CONSTANTS
   MaxBacks = 2
   MaxSize = 4
   Deviations = {}
+  EmitDeviations = {}
   Focus = "all"
   Emit = FALSE
 INVARIANTS TypeOK P_C20_RejectsExactlyInvalid P_C20_DeclaredIsLoaded P_C20_ReloadIdempotent P_C20_NothingDuplicated P_C20_Compositional
